@@ -447,10 +447,14 @@ def depth_markers(ctx: Context, rule: str) -> None:
                 found = markers
         # a single marker written as one definite fact (degenerate, but readable the same way)
         if found is None:
+            # (only ONE: several markers known at once are a conjunction - every marker demanded - not the disjunction)
             singles = {m for m in (_marker_of(t, pol, var) for t, pol in fs) if m is not None}
-            found = singles or None
+            found = singles if len(singles) == 1 else None
+            if len(singles) > 1:
+                why = f"the markers {sorted(k for k, _ in singles)} are all demanded at once where the variable is collected: any one of them has to be enough"[:300]
         if found is None:
-            why = f"no disjunction over {var}.attrs is known where it is collected (clauses: {[[t for t, _ in cl] for cl in cls][:2]})"[:300]
+            if not why.startswith('the markers'):
+                why = f"no disjunction over {var}.attrs is known where it is collected (clauses: {[[t for t, _ in cl] for cl in cls][:2]})"[:300]
         else:
             ok = found == DEPTH_MARKERS
             missing = sorted(k for k, _ in DEPTH_MARKERS - found)
